@@ -53,6 +53,7 @@ def run(tier, replay):
                     b["what"], e["L"], e["C"], e["script"], i, b["exp"], b["got"])
             c.violation(b["what"], txt[:1500], {"event": e, "spec": b})
         c.add("traces_validated_against_impl", summary["cases"])
+        c.add("store_fault_upload_cases", summary.get("store_fault_cases", 0))
         for i, line in enumerate(lines):
             e = json.loads(line)
             if e["fn"] == "catalog":
